@@ -15,6 +15,8 @@ RULE = ("Dates drawn evenly over 2000-01-01 .. 2020-12-31 (to 2017-02 with the r
         "the 16 bodies of de403_2000-2020.bsp (+ the built-in EME2000 frame) is enumerated at every "
         "drawn date, with and without PCK files.")
 ASSUMPTIONS = [
+    "history facet: what a caller does to an object it was handed (frame / form / values / date changed in "
+    "place) must not reach any later answer; later answers are compared bit for bit with the first ones",
     "oracle: the type-2 segments of tests/data/jpl/de403_2000-2020.bsp evaluated with jplephem and "
     "chained through the file's own centre/target tree by vf/oracles/de403.py (km -> m, km/day -> m/s)",
     "TDB of the oracle: UTC + (TAI-UTC) + 32.184 s + 0.001657 sin g + 0.000022 sin(L-LJ) "
@@ -279,6 +281,170 @@ def check_jpl_pairs(case):
                 ratio=worst)
 
 
+# ----------------------------------------------------------------- call histories (value semantics)
+
+HIST_STEP = {"sun": 5, "moon": 1}  # days: the differencing step of the body's own velocity
+HIST_JPL = [("Mars", 499), ("Moon", 301), ("EarthBarycenter", 3)]
+MUTATIONS = ["frame:EME2000", "frame:MOD", "frame:ITRF", "form:spherical", "form:keplerian", "zero", "date",
+             "scale"]
+
+
+def hist_is_jpl(shard):
+    return shard % 4 >= 2
+
+
+def setup_history(shard):
+    if hist_is_jpl(shard):
+        from .. import env
+
+        env.eop(eop_of(shard))
+        env.jpl(with_pck=True)
+        from beyond.env import jpl
+
+        jpl.create_frames()
+    else:
+        setup_series(shard)
+
+
+@st.composite
+def history_case(draw, shard, tier):
+    from ..gen.draws import D
+
+    d = D(draw)
+    hi = (MJD_REAL_END if eop_of(shard) == "real" else MJD_2020_END) - 25
+    band = (shard // 4) % 4
+    width = (hi - MJD_2000 - 25) // 4
+    mjd = MJD_2000 + 25 + band * width + d.int(0, width - 1)
+    bodies = ["sun", "moon"] + ([n for n, _ in HIST_JPL] if hist_is_jpl(shard) else [])
+    body = bodies[d.int(0, len(bodies) - 1)]
+    ops = []
+    for _ in range(d.int(3, 12)):
+        if d.int(0, 9) < 6:
+            # the same date again is as likely as a neighbour one, two or three steps away
+            ops.append(dict(op="query", k=d.pick(0, 0, 0, 1, -1, 1, -1, 2, -2, 3, -3)))
+        else:
+            ops.append(dict(op="mutate", what=MUTATIONS[d.int(0, len(MUTATIONS) - 1)], idx=d.int(0, 11)))
+    if not any(o["op"] == "query" for o in ops):
+        ops.append(dict(op="query", k=0))
+    return dict(shard=shard, body=body, mjd=mjd, sec=float(d.int(0, 86399)) + d.int(0, 999) / 1000.0, ops=ops)
+
+
+def _mutate(obj, what, other_date):
+    """What a caller may do with an object it was handed: all documented in-place idioms.  Whether
+    the change itself succeeds is not the subject here (a Sun 'orbit' has no Earth-keplerian form)."""
+    try:
+        if what.startswith("frame:"):
+            obj.frame = what[6:]
+        elif what.startswith("form:"):
+            obj.form = what[5:]
+        elif what == "zero":
+            obj.base[:] = 0.0
+        elif what == "scale":
+            obj.base[:] = np.asarray(obj.base, float) * 1.5 + 7.0
+        elif what == "date":
+            obj.date = other_date
+    except Exception:
+        pass
+
+
+def check_history(case):
+    from beyond.dates import Date, timedelta
+    from beyond.env import solarsystem
+
+    name = case["body"]
+    series = name in HIST_STEP
+    step = HIST_STEP.get(name, 1)
+    if series:
+        idx, tol_ang, tol_dist, native = BODY[name]
+        tol_vel = SUN_VEL if name == "sun" else MOON_VEL
+        body = solarsystem.get_body(name)
+
+        def ask(dt):
+            return body.propagate(dt)
+    else:
+        from beyond.env import jpl
+
+        idx = dict(HIST_JPL)[name]
+        native = frame_name(kernel().parent[idx])
+
+        def ask(dt):
+            return jpl.get_orbit(name, dt)
+
+    def date_of(k):
+        return Date(int(case["mjd"]) + k * step, float(case["sec"]))
+
+    first = {}  # k -> (values, frame name, form name) of the first answer in this history
+    handed = []  # every object the library handed out
+    worst = 0.0
+    cls = set()
+    for n, op in enumerate(case["ops"]):
+        if op["op"] == "mutate":
+            if handed:
+                _mutate(handed[op["idx"] % len(handed)], op["what"], date_of(7))
+                cls.add("mutated:" + op["what"].split(":")[0])
+            continue
+        k = op["k"]
+        dt = date_of(k)
+        res = ask(dt)
+        where = f"step {n + 1} ({name}, date {k:+d} x {step} d)"
+        vals = np.array(res.base, float)
+        if not np.all(np.isfinite(vals)):
+            raise Violation("non-finite", f"{where}: {vals.tolist()}")
+        for old in handed:
+            if res is old:
+                raise Violation("history-same-object", f"{where}: the library handed out an object it had handed out before")
+            if np.shares_memory(np.asarray(res.base), np.asarray(old.base)):
+                raise Violation("history-shared-buffer", f"{where}: the result shares its buffer with an earlier result")
+        if res.frame.name != native or res.form.name != "cartesian":
+            raise Violation("history-frame-form",
+                            f"{where}: state comes in {res.frame.name}/{res.form.name}, a fresh one is {native}/cartesian")
+        if abs((res.date - dt).total_seconds()) > 1.0:
+            raise Violation("history-date", f"{where}: state dated {res.date} for a request at {dt}")
+        if k in first:
+            if not np.array_equal(vals, first[k]):
+                raise Violation("history-value",
+                                f"{where}: {vals.tolist()} now, {first[k].tolist()} the first time this date was asked")
+            cls.add("repeat")
+        else:
+            first[k] = vals
+        # the answer itself, against the ephemeris (what the plain facets check on a pristine process)
+        sub = dict(shard=case["shard"], mjd=case["mjd"] + k * step, sec=case["sec"])
+        if series:
+            got = np.asarray(res.copy(frame="EME2000", form="cartesian").base, float)
+            ref = kernel().state(idx, 399, *true_tdb(sub))
+            ang = math.degrees(od.angle(got[:3], ref[:3]))
+            dist = abs(float(np.linalg.norm(got[:3])) / float(np.linalg.norm(ref[:3])) - 1.0)
+            h = 600.0
+            plus = np.asarray(ask(dt + timedelta(seconds=h)).base, float)
+            minus = np.asarray(ask(dt - timedelta(seconds=h)).base, float)
+            fd = (plus[:3] - minus[:3]) / (2 * h)
+            verr = float(np.linalg.norm(vals[3:] - fd)) / float(np.linalg.norm(fd))
+            worst = max(worst, ang / tol_ang, dist / tol_dist, verr / tol_vel)
+            if ang > tol_ang or dist > tol_dist:
+                raise Violation("history-position",
+                                f"{where}: {ang:.4f} deg / {dist:.3g} from DE403 (allowed {tol_ang} deg / {tol_dist})")
+            if verr > tol_vel:
+                raise Violation("history-velocity",
+                                f"{where}: velocity {vals[3:].tolist()} m/s is {100 * verr:.3g} % away from the derivative "
+                                f"of the position {fd.tolist()} (allowed {100 * tol_vel} %)")
+        else:
+            j1, j2 = od.tdb_jd(sub["mjd"], sub["sec"], "UTC", float(dt.eop.tai_utc))
+            K = kernel()
+            ref = K.state(idx, K.parent[idx], j1, j2)
+            speed = float(np.linalg.norm(ref[3:]))
+            dp = float(np.linalg.norm(vals[:3] - ref[:3]))
+            dv = float(np.linalg.norm(vals[3:] - ref[3:]))
+            tol_p = speed * TIMING + 1e-3 + 1e-14 * float(np.linalg.norm(ref[:3]))
+            worst = max(worst, dp / tol_p, dv / (2e-5 + 1e-13 * speed))
+            if dp > tol_p or dv > 2e-5 + 1e-13 * speed:
+                raise Violation("history-position", f"{where}: {dp:.4g} m, {dv:.4g} m/s from the kernel segment")
+        handed.append(res)
+        cls.add(f"k:{abs(k)}")
+    nq = sum(1 for o in case["ops"] if o["op"] == "query")
+    return dict(nt=nq >= 2 and any(o["op"] == "mutate" for o in case["ops"]),
+                cls=sorted(cls) + [name if series else "kernel-body", f"eop:{eop_of(case['shard'])}"], ratio=worst)
+
+
 LEVEL_TEXT = ("Property-based search over dates of 2000-2020: the analytical Sun and Moon against DE403 "
               "read directly with jplephem, their velocities against the derivative of their own "
               "positions; every ordered pair of kernel bodies (enumerated) against the chained segments, "
@@ -295,6 +461,9 @@ FACETS = [
           rule="every case", quick=(8, 250), thorough=(16, 4000)),
     Facet("velocity", velocity_case, check_velocity, setup=setup_series,
           rule="every case", quick=(16, 100), thorough=(16, 2500)),
+    Facet("history", history_case, check_history, setup=setup_history,
+          rule="at least two queries and one in-place change of a returned object in the history",
+          quick=(8, 120), thorough=(16, 2000)),
     Facet("jpl_pairs", jpl_case, check_jpl_pairs, setup=setup_jpl,
           rule="every case = 272 ordered (from, to) pairs x {zero state, get_orbit} at one date",
           quick=(16, 5), thorough=(48, 60)),
